@@ -549,3 +549,20 @@ func init() {
 	extendProp("C20", dec, nil, func(c *Ctx) { journalDropped(c, "EFFECT/C20.journaldropped") })
 	extendProp("C17", dec, nil, func(c *Ctx) { journalDropped(c, "EFFECT/C17.journaldropped") })
 }
+
+func init() {
+	extendProp("C12", "A delivery is stored only after its hash was compared with the request: in Sync.ProcessNode and Sync.ProcessCode the store of the delivered bytes into the request lies behind the outcome `Keccak256(data) == requested hash`.", nil, func(c *Ctx) {
+		c.Rule("DOM/C12.hashverified")
+		n := 0
+		for _, x := range []struct{ fn, fld string }{{"(*Sync).ProcessNode", "trie.nodeRequest.data"}, {"(*Sync).ProcessCode", "trie.codeRequest.data"}} {
+			f := c.Fn("trie", x.fn)
+			if f == nil {
+				continue
+			}
+			st := c.Stores(f, x.fld)
+			n += len(st)
+			c.Dom("delivery-hashed", f, st, "req.data = result.Data", GCond("crypto.Keccak256Hash(result.Data) == hash", f, Cmp(CallRes("crypto.Keccak256Hash"), token.EQL, Any())))
+		}
+		c.Expect(2, n, "stores of delivered data")
+	})
+}
